@@ -207,6 +207,9 @@ def block_mutations(spec):
     out['time+7200'] = lambda s: s.update(time=CUR_TIME + 7200) or s
     out['time+7201'] = lambda s: s.update(time=CUR_TIME + 7201) or s
     out['time=0'] = lambda s: s.update(time=0) or s
+    out['cur_time=0,time=7200'] = lambda s: s.update(time=7200, cur_time=0) or s
+    out['cur_time=0,time=7201'] = lambda s: s.update(time=7201, cur_time=0) or s
+    out['cur_time=0.0,time=7201'] = lambda s: s.update(time=7201, cur_time=0.0) or s
     out['pow:bad_hash'] = lambda s: s.update(pow='bad') or s
     out['pow:bits_above_limit'] = lambda s: s.update(bits=0x2100ffff) or s
     out['pow:bits_zero'] = lambda s: s.update(bits=0) or s
@@ -294,7 +297,7 @@ def lib_check_block(b, spec):
     from bitcoin.core import CBlock, CheckBlock, ValidationError
     blk = CBlock.deserialize(W.encode_block(b))
     try:
-        CheckBlock(blk, fCheckPoW=spec['check_pow'], cur_time=CUR_TIME)
+        CheckBlock(blk, fCheckPoW=spec['check_pow'], cur_time=spec.get('cur_time', CUR_TIME))
         return ('ok',)
     except ValidationError as e:
         return ('reject', type(e).__name__)
@@ -305,7 +308,7 @@ def lib_check_block(b, spec):
 def judge_block(spec, label):
     C.select(spec['chain'])
     b = build_block(spec)
-    want = R.check_block(b, RC.POW_LIMIT[spec['chain']], CUR_TIME, spec['check_pow'])
+    want = R.check_block(b, RC.POW_LIMIT[spec['chain']], spec.get('cur_time', CUR_TIME), spec['check_pow'])
     if want == 'DONTCARE':
         return 'dontcare', False
     got = lib_check_block(b, spec)
